@@ -110,7 +110,9 @@ def source_chain(kind: str, ta: int, tb: int, tc: int) -> str:
 # ------------------------------------------------------------------ O2 references
 DATA2 = "h1,h2,h3\na,b,c\nd,e\nf\ng,h,i\n"
 # the first member collects nothing; the references below are to the second member
-G = ['~id:z~ $[*][ @zz = 1  no() ]', '~id:a~ $[*][ @v = symv()  @d.k = symw()  gt(line_number(), symt()) ]']
+G = ['~id:z~ $[*][ @zz = 1  no() ]', '~id:a~ $[*][ @v = symv()  @d.k = symw()  gt(line_number(), symt()) ]',
+     # a member whose identity contains a period: results references name it in full
+     '~id:c.v2~ $[*][ gt(line_number(), 0) ]', '~id:c~ $[*][ no() ]']
 RECORDS2 = [r for r in csv.reader(io.StringIO(DATA2))]
 R = ['~id:r~ $[1][ @x = $g.variables.v  @y = $g.variables.d.k  @z = $g.headers.h3.a ]']
 R2 = ['~id:q~ $[*][ yes() ]']
@@ -121,16 +123,16 @@ R2 = ['~id:q~ $[*][ yes() ]']
     "O2-references",
     pre=["{LO} <= v1 <= {HI} and {LO} <= w1 <= {HI} and {LO} <= v2 <= {HI} and {LO} <= w2 <= {HI}"],
     post="_ == ''",
-    bound="group g (2 members: the first collects nothing, the second collects a ragged 5-record file) run once or twice (symbolic) leaving symbolic ints in a plain and "
+    bound="group g (4 members, one with a period in its identity; the second run's match threshold per shard, so the most recent run collects 5, 3, 2 or 1 lines; the first collects nothing, the second collects a ragged 5-record file) run once or twice (symbolic) leaving symbolic ints in a plain and "
     "a tracking-keyed variable; then a group that reads $g.variables.v, $g.variables.d.k and $g.headers.h3.a, a replay of '$g.results.:first.a', and groups run (serially and breadth-first, "
     "before and after the second run of g, on the same instance) on the file name '$g.results.:last.a': always the most recent run's data.csv",
     outside="references to groups of several members; ':first'; 3 runs",
     encodes=["csvpath/matching/productions/reference.py:Reference._variable_value/_header_value/_get_value_from_results/get_results",
              "csvpath/managers/results/results_manager.py:ResultsManager.get_variables/data_file_for_reference/_find_instance", "csvpath/util/reference_parser.py:ReferenceParser"],
-    tiers={"quick": {"timeout": 1800, "K": {"LO": -1, "HI": 1}, "shards": product(twice=[False, True], w1=[0], w2=[1])},
-           "thorough": {"timeout": 6000, "K": {"LO": -2, "HI": 3}, "shards": product(twice=[False, True], w1=[0, 2])}},
+    tiers={"quick": {"timeout": 1800, "K": {"LO": -1, "HI": 1}, "shards": product(twice=[False], w1=[0], w2=[1]) + product(twice=[True], w1=[0], w2=[1], v1=[0], t2=[-1, 1, 2, 3])},
+           "thorough": {"timeout": 6000, "K": {"LO": -2, "HI": 3}, "shards": product(twice=[False], w1=[0, 2]) + product(twice=[True], w1=[0, 2], t2=[-1, 0, 1, 2, 3])}},
 )
-def references(twice: bool, v1: int, w1: int, v2: int, w2: int) -> str:
+def references(twice: bool, v1: int, w1: int, v2: int, w2: int, t2: int = 1) -> str:
     import datetime
     import csvpath.csvpaths as _cps
 
@@ -149,13 +151,13 @@ def references(twice: bool, v1: int, w1: int, v2: int, w2: int) -> str:
         _cps.datetime = _Clock
         root, cs = kitpaths.env({"g": G, "r": R, "r2": R2}, policy="raise, collect, print", data=DATA2)
     try:
-        return _references(cs, root, twice, v1, w1, v2, w2)
+        return _references(cs, root, twice, v1, w1, v2, w2, t2)
     finally:
         with NoTracing():
             _cps.datetime = saved
 
 
-def _references(cs, root, twice, v1, w1, v2, w2) -> str:
+def _references(cs, root, twice, v1, w1, v2, w2, t2) -> str:
     problems = []
     kit.HOLD.update(symv=v1, symw=w1, symt=-1)
     cs.collect_paths(filename="data", pathsname="g")
@@ -166,16 +168,16 @@ def _references(cs, root, twice, v1, w1, v2, w2) -> str:
         problems.append("first replay of $g.results.:last.a did not give the first run's lines")
     first_lines = RECORDS2
     if twice:
-        kit.HOLD.update(symv=v2, symw=w2, symt=1)
+        kit.HOLD.update(symv=v2, symw=w2, symt=t2)
         cs.collect_paths(filename="data", pathsname="g")
-        lastv, lastw, lastt = v2, w2, 1
+        lastv, lastw, lastt = v2, w2, t2
     cs.fast_forward_paths(filename="data", pathsname="r")
     rr = cs.results_manager.get_named_results("r")[0].csvpath.variables
     if rr.get("x") != lastv:
         problems.append(f"$g.variables.v gave {rr.get('x')}, the last run left {lastv}")
     if rr.get("y") != lastw:
         problems.append(f"$g.variables.d.k gave {rr.get('y')}, the last run left {lastw}")
-    want_z = ["h3", "c", "i"] if lastt < 0 else ["i"]
+    want_z = [r[2] for i, r in enumerate(RECORDS2) if i > lastt and len(r) > 2]
     if rr.get("z") != want_z:
         problems.append(f"$g.headers.h3 gave {rr.get('z')}, expected {want_z}")
     want_lines = [r for i, r in enumerate(RECORDS2) if i > lastt]
@@ -184,6 +186,10 @@ def _references(cs, root, twice, v1, w1, v2, w2) -> str:
     got_first = kitpaths.result_lines(cs.results_manager.get_named_results("r2")[0])
     if got_first != first_lines:
         problems.append(f"replay of $g.results.:first.a gave {got_first}, the earliest run collected {first_lines}")
+    cs.collect_paths(filename="$g.results.:last.c.v2", pathsname="r2")
+    got_dotted = kitpaths.result_lines(cs.results_manager.get_named_results("r2")[0])
+    if got_dotted != RECORDS2[1:]:
+        problems.append(f"replay of $g.results.:last.c.v2 gave {got_dotted}, member c.v2 collected {RECORDS2[1:]}")
     got_byline = [list(x) for x in cs.collect_by_line(filename="$g.results.:last.a", pathsname="r2")]
     cs.collect_paths(filename="$g.results.:last.a", pathsname="r2")
     got_serial = kitpaths.result_lines(cs.results_manager.get_named_results("r2")[0])
